@@ -626,6 +626,35 @@ TM["split"] = _split
 TF["split"] = _split
 
 
+def _chunk(t, chunks, dim=0):
+    """torch.chunk into `chunks` equal parts (the size along dim must be a multiple of chunks: WF obligation)."""
+    d = norm_dim(dim, t.rank)
+    n = t.shape[d]
+    if not isinstance(chunks, int):
+        raise Unsupported("chunk into a symbolic number of parts")
+    if isinstance(n, int):
+        if n % chunks:
+            raise Unsupported("chunk with a remainder")
+        size = n // chunks
+    else:
+        size = ops._cancel_factor(zint(n), z3.IntVal(chunks))
+        if size is None:
+            cur().wf(f"chunk-divisible {n} by {chunks}", zint(n) % chunks == 0)
+            size = simp_int(zint(n) / chunks)
+        else:
+            size = simp_int(size)
+    out = []
+    for j in range(chunks):
+        idx = [slice(None)] * t.rank
+        idx[d] = slice(simp_int(ops.scalar_binop("mul", j, size, wf=False)), simp_int(ops.scalar_binop("mul", j + 1, size, wf=False)))
+        out.append(ops.getitem(t, tuple(idx)))
+    return tuple(out)
+
+
+TM["chunk"] = _chunk
+TF["chunk"] = _chunk
+
+
 def _unbind(t, dim=0):
     d = norm_dim(dim, t.rank)
     n = t.shape[d]
